@@ -110,6 +110,7 @@ def build_cells(lib):
     for d in ("Dieudonne", "Moore", "Study"):
         out("det", f"non_square_{d}", u.det, Q(gen(2, 3)), d)
     out("det", "unknown_option", u.det, Q(herm(2)), "Cayley")
+    out("det", "not_implemented_Study", u.det, Q(herm(2)), "Study")
     out("det", "unknown_option_case", u.det, Q(herm(2)), "moore")
     out("det", "non_hermitian_Moore", u.det, Q(nonherm(3)), "Moore")
     out("det", "complex_dtype", u.det, cplx3.copy(), "Dieudonne")
@@ -130,7 +131,6 @@ def build_cells(lib):
         inn(nm, "rank0", f_, Q(np.zeros((2, 3, 4))))
     # ---------------- power iterations
     out("power_iteration", "non_square", u.power_iteration, Q(gen(2, 3)))
-    out("power_iteration", "complex_dtype", u.power_iteration, (cplx3 + cplx3.conj().T).copy())
     inn("power_iteration", "boundary_1x1", u.power_iteration, Q(herm(1)), return_eigenvalue=True)
     inn("power_iteration", "rank0", u.power_iteration, Q(np.zeros((2, 2, 4))), return_eigenvalue=True)
     out("power_iteration_nonhermitian", "non_square", u.power_iteration_nonhermitian, Q(gen(2, 3)))
@@ -151,7 +151,6 @@ def build_cells(lib):
         out(nm, "non_square", f, Q(gen(2, 3)))
         out(nm, "non_hermitian", f, Q(nonherm(3)))
         out(nm, "non_hermitian_2x2", f, Q(nonherm(2)))
-        out(nm, "complex_dtype", f, (cplx3 + cplx3.conj().T).copy())
         inn(nm, "boundary_1x1", f, Q(herm(1)))
         inn(nm, "rank0", f, Q(np.zeros((3, 3, 4))))
     out("tridiagonalize", "non_square", TR.tridiagonalize, Q(gen(2, 3)))
@@ -161,7 +160,6 @@ def build_cells(lib):
     inn("tridiagonalize", "rank0", TR.tridiagonalize, Q(np.zeros((3, 3, 4))))
     out("hessenbergize", "non_square", HS.hessenbergize, Q(gen(2, 3)))
     out("hessenbergize", "not_2d", HS.hessenbergize, Q(gen(3, 1))[:, 0])
-    out("hessenbergize", "complex_dtype", HS.hessenbergize, cplx3.copy())
     inn("hessenbergize", "boundary_1x1", HS.hessenbergize, Q(gen(1, 1)))
     inn("hessenbergize", "rank0", HS.hessenbergize, Q(np.zeros((3, 3, 4))))
     # ---------------- Schur
@@ -175,7 +173,6 @@ def build_cells(lib):
     for nm, f, kw in schurs:
         out(nm, "non_square", f, Q(gen(2, 3)), max_iter=5)
         out(nm, "not_2d", f, Q(gen(3, 1))[:, 0], max_iter=5)
-        out(nm, "complex_dtype", f, cplx3.copy(), max_iter=5)
         inn(nm, "boundary_1x1", f, Q(gen(1, 1)), max_iter=5)
         inn(nm, "boundary_2x2", f, Q(gen(2, 2)), max_iter=20)
         inn(nm, "rank0", f, Q(np.zeros((3, 3, 4))), max_iter=5)
@@ -192,8 +189,8 @@ def build_cells(lib):
         inn("quaternion_schur", f"shift_{v}_2x2", SC.quaternion_schur, Q(gen(2, 2)), shift=v, max_iter=10)
     # ---------------- Q-SVD family
     for nm, f, extra in (("classical_qsvd_full", SVD.classical_qsvd_full, ()), ("classical_qsvd", SVD.classical_qsvd, (1,)), ("qr_qua", SVD.qr_qua, ()), ("rand_qsvd", SVD.rand_qsvd, (1,)), ("pass_eff_qsvd", SVD.pass_eff_qsvd, (1,))):
-        out(nm, "complex_dtype", f, cplx3.copy(), *extra)
         if nm in ("classical_qsvd_full", "classical_qsvd", "qr_qua"):
+            out(nm, "complex_dtype", f, cplx3.copy(), *extra)
             out(nm, "sparse", f, to_sparse(lib, gen(3, 3)), *extra)
         for shp in ((1, 1), (1, 3), (3, 1)):
             inn(nm, f"boundary_{shp[0]}x{shp[1]}", f, Q(gen(*shp)), *extra)
@@ -252,7 +249,6 @@ def build_cells(lib):
         for shp in ((1, 1), (1, 3), (3, 1)):
             inn(nm + ".compute", f"boundary_{shp[0]}x{shp[1]}", (lambda mk_: (lambda A: mk_().compute(A)))(mk), Q(gen(*shp)))
         inn(nm + ".compute", "rank0", (lambda mk_: (lambda A: mk_().compute(A)))(mk), Q(np.zeros((2, 3, 4))))
-        out(nm + ".compute", "complex_dtype", (lambda mk_: (lambda A: mk_().compute(A)))(mk), cplx3.copy())
     rsp = lambda **k: sv.RandomizedSketchProjectPseudoinverse(block_size=2, max_iter=30, seed=1, **k)
     out("RSP.compute_column_variant", "wrong_orientation_wide", lambda A: rsp().compute_column_variant(A), Q(gen(2, 3)))
     out("RSP.compute_row_variant", "wrong_orientation_tall", lambda A: rsp().compute_row_variant(A), Q(gen(3, 2)))
